@@ -60,3 +60,14 @@ Section LossInstances.
   #[global] Instance HSub_lC : HSub C C C := l_sub.
   #[global] Instance HSub_lR : HSub C R C := l_subR.
 End LossInstances.
+
+(** extended values ([+inf] allowed) of the functional algebra of _functional.py (coq/gen/C09_{Scaled,FSum,Zero}.v) *)
+Class ExtSig (K E : Type) := {
+  e_scale : K -> E -> E;        (* self.scale * self.functional(x) *)
+  e_add : E -> E -> E;          (* self.functional1(x) + self.functional2(x) *)
+}.
+Section ExtInstances.
+  Context {K E : Type} {ES : ExtSig K E}.
+  #[global] Instance HMul_eK : HMul K E E := e_scale.
+  #[global] Instance HAdd_eE : HAdd E E E := e_add.
+End ExtInstances.
